@@ -42,7 +42,12 @@ def pass_through_rule(run, ix, rule, prop, spec, core, what, why):
             continue
         n += 1
         rn = pv.cfg.nodes_of[id(r)][0]
-        if any(pv.cfg.dominates(c, rn) for c in cn):
+        # every path from the entry to this return passes one of the core calls (they may sit in alternative branches)
+        import networkx as nx
+        g2 = pv.cfg.g.copy()
+        g2.remove_nodes_from([c for c in cn if c != rn])
+        through = rn in cn or not (rn in g2 and nx.has_path(g2, pv.cfg.entry, rn))
+        if through:
             run.instance(rule, f.where, f"{f.qualname}: return at line {r.lineno} is computed after `{core}`", True)
             continue
         g = pv.guards(r)
